@@ -83,7 +83,9 @@ CHECKS = {
         "assumptions": COMMON_ASSUME + ["mock-lint call logs (constructor/Configure/CheckApplies/Execute order) are covered by the mockreg leg"],
     },
     "C06": {
-        "legs": legs_simple("props", "^TestC06$", 14, 16),
+        "legs": lambda tier: [{"pkg": "props", "run": "^TestC06$", "shards": 14 if tier == "quick" else 16},
+                              # the reporting corpus objects linted by eight goroutines at once: prefix rule and sequential digests, race-detector build
+                              {"pkg": "racecheck", "run": "^TestConcurrentCorpus$", "shards": 4 if tier == "quick" else 16, "race": True, "replay_pkg": False}],
         "rule": "every lint run contributes a (lint, status) tally: corpus, boundary objects of every dated lint, " + HOME_SWEEP + " (K=2), rapid edits directed at the home objects of each lint, generated objects with openers, the calendar CRL enumeration x the CRL lint's option, rapid objects under well-typed configurations; S/MIME subjects whose mailboxes reappear in the SAN verbatim, in their other IDNA spelling, as SmtpUTF8Mailbox (well-formed or not) or not at all. "
                 "Oracle: status in {pass, NA, NE, fatal} or the one severity the name prefix allows; every registered name has exactly one prefix (enumerated). "
                 "Non-trivial = distinct (lint, status above pass) pair observed. Sections that cannot be applied (enumerated: scalar, string, array, array of tables, date, wrong field type, table for a scalar x every configurable lint x objects it runs on; and one rapid case in five of the configured leg): what the framework answers in the lint's place must also fit the lint's prefix.",
